@@ -122,7 +122,14 @@ func main() {
 	if err := json.Unmarshal(raw, &spec); err != nil {
 		die("bad wfspec: %v", err)
 	}
-	wf := sp.NewWorkflowCustomLogFile(spec.Name, spec.Max, "wf.log")
+	// audit and warning logs go to wf.log, errors to stderr (the harness can delay reading stderr, which
+	// blocks a goroutine inside Fail while it reports - other log levels are not affected)
+	logf, lerr := os.Create("wf.log")
+	if lerr != nil {
+		die("%v", lerr)
+	}
+	sp.InitLog(ioutil.Discard, ioutil.Discard, ioutil.Discard, logf, logf, os.Stderr)
+	wf := sp.NewWorkflowCustomLogFile(spec.Name, spec.Max, "wf2.log")
 
 	type portOwner interface {
 		OutPort(string) *sp.OutPort
@@ -139,6 +146,12 @@ func main() {
 		outdir := p.OutDir
 		if outdir == "" {
 			outdir = "o/"
+		}
+		// $PWD / $PWDNAME let an instance declare absolute or ../-relative output
+		// paths that still end up in <workdir>/o/
+		if wd, err := os.Getwd(); err == nil {
+			outdir = strings.Replace(outdir, "$PWDNAME", filepath.Base(wd), -1)
+			outdir = strings.Replace(outdir, "$PWD", wd, -1)
 		}
 		switch p.Kind {
 		case "src":
@@ -319,6 +332,9 @@ func goFuncTask(t *sp.Task, p Proc) {
 		if b, err := ioutil.ReadFile(filepath.Join(ctl, key+".fault")); err == nil {
 			fault = strings.TrimSpace(string(b))
 		}
+	}
+	if fault == "exit_before_write" {
+		sp.Failf("gofunc %s: injected failure before any write", key)
 	}
 	outs := []string{}
 	for k := range t.OutIPs {
